@@ -82,6 +82,10 @@ func (x *Exec) libCall2(s *State, site ssa.Instruction, fn *ssa.Function, name s
 		x.used(name)
 		k(s, x.freshResult(s, site, res))
 		return true
+	case "(*golang.org/x/crypto/ssh.ServerConfig).AddHostKey", "golang.org/x/crypto/ssh.ParsePrivateKey", "golang.org/x/crypto/ssh.DiscardRequests":
+		x.used(name + " (no effect on verified state)")
+		k(s, x.freshResult(s, site, res))
+		return true
 	case "net.LookupIP", "(net.IP).String":
 		x.used(name)
 		k(s, x.freshResult(s, site, res))
